@@ -42,7 +42,11 @@ def cases(tier, seed):
 
 
 def run(ctx, spec):
-    return globals()['k_' + spec['kind']](ctx, spec)
+    from .mpscommon import OracleLimit
+    try:
+        return globals()['k_' + spec['kind']](ctx, spec)
+    except OracleLimit as e:
+        ctx.skip(f'oracle limit: {e}')
 
 
 def _setup(ctx, spec):
